@@ -1,4 +1,5 @@
 import AFProofs.Lemmas.EP
+import AFProofs.Lemmas.EPPlate
 
 /-!
 # C18 — expectation-propagation bookkeeping is exact
@@ -30,6 +31,16 @@ Clauses of the property and where they are:
 * result accessors report the most recent state        `latest_is_last_success`, `latest_is_success`,
                                                        `latest_none_iff`, `latest_results_per_factor`;
                                                        pinned commit: `latest_refuted_when_first`
+* array-valued messages (plates): arrays are an `EtaSpace` (`AF.EP.instEtaSpacePi`), so every theorem
+  above holds for them as stated; element by element `plate_model_eq_message_times_cavity`,
+  `plate_approx_is_elementwise`, `plate_global_is_elementwise`, `plate_update_is_elementwise` (the
+  array update with `np.where` validity IS the scalar update of every element), hence
+  `plate_update_only_that_factor`, `plate_full_update_sets_global`, `plate_damped_update_global`,
+  `plate_improper_element_keeps_message`
+* batches (`EPMeanFieldSubset`)                          `subset_model_eq_message_times_cavity`; indexing:
+                                                       `merge_subset_self`, `merge_untouched_elements`,
+                                                       `subset_of_merge`, `merge_whole_when_no_plate_selected`
+* `log_norm`                                           `log_norm_dropped_by_projection`, `log_norms_after_updates_zero`
 -/
 
 namespace AF.C18
@@ -486,6 +497,165 @@ example :
     let d : Decl := { places := [[0, 0, 1], [0]], ipf := true }
     d.count {} 0 = 3 ∧ cavityOpt d.factors (d.init {} (fun _ => (7 : Rat))) 0 0 = some 7
       ∧ cavityOpt d.factors (d.init {} (fun _ => (7 : Rat))) 3 1 = some 7 := by
+  decide +kernel
+
+/-! ## array-valued messages: plates -/
+
+/-- model = own message × cavity for array-valued messages, element by element (the general theorem
+at `G := I → G`) -/
+theorem plate_model_eq_message_times_cavity {I : Type} (fs : List Nat) (s : State (I → G))
+    (f v : Nat) (m : I → G) (h : s.get f v = some m) (i : I) :
+    (modelOpt fs s f v).map (fun x => x i) = some (m i + cavity fs s f v i) := by
+  rw [(model_eq_message_times_cavity fs s f v m h).1]
+  rfl
+
+/-- element `i` of a factor approximation over arrays is the factor approximation of the element-`i`
+state -/
+theorem plate_approx_is_elementwise {I : Type} (fs : List Nat) (s : State (I → G)) (f : Nat) (i : I) :
+    sliceApprox i (approx fs s f) = approx fs (sliceState i s) f :=
+  approx_slice i fs s f
+
+theorem plate_global_is_elementwise {I : Type} (fs : List Nat) (s : State (I → G)) (v : Nat) (i : I) :
+    global fs s v i = global fs (sliceState i s) v :=
+  (total_slice i s v fs).symm
+
+/-- **An update of array-valued messages (improper elements replaced one by one, `np.where`) is the
+scalar update of every element**: plates are independent copies of the scalar bookkeeping. -/
+theorem plate_update_is_elementwise {I : Type} (valid : G → Bool) (fs : List Nat) (s : State (I → G))
+    (f : Nat) (q : Field (I → G)) (δ : Delta) (i : I) :
+    sliceState i (projectArr valid s (approx fs s f) q δ) =
+      project valid (sliceState i s) (approx fs (sliceState i s) f) (sliceField i q) δ := by
+  rw [projectArr_slice, approx_slice]
+
+/-- an update changes only that factor's (array-valued) message -/
+theorem plate_update_only_that_factor {I : Type} (valid : G → Bool) (s : State (I → G))
+    (a : Approx (I → G)) (q : Field (I → G)) (δ : Delta) (g v : Nat) (hg : g ≠ a.f) :
+    (projectArr valid s a q δ).get g v = s.get g v := by
+  show (if a.f == g then _ else s.get g v) = s.get g v
+  have : (a.f == g) = false := by simpa using fun e => hg e.symm
+  rw [this]; rfl
+
+/-- **Full update, element by element**: every element whose projection is proper makes the global
+approximation equal the newly fitted distribution there (whatever happens to the other elements). -/
+theorem plate_full_update_sets_global {I : Type} (fs : List Nat) (valid : G → Bool)
+    (s : State (I → G)) (f v : Nat) (q : Field (I → G)) (δ : Delta) (qv : I → G) (i : I)
+    (hnd : fs.Nodup) (hf : f ∈ fs) (hheld : (s.get f v).isSome) (hq : lookup q v = some qv)
+    (hδ : δ.at v = none) (hvalid : valid (qv i - cavity fs s f v i) = true) :
+    global fs (projectArr valid s (approx fs s f) q δ) v i = qv i := by
+  rw [plate_global_is_elementwise, plate_update_is_elementwise]
+  apply full_update_sets_global fs valid (sliceState i s) f v (sliceField i q) δ (qv i) hnd hf
+  · rw [get_sliceState]; simpa using hheld
+  · rw [lookup_sliceField, hq]; rfl
+  · exact hδ
+  · have hc : cavity fs (sliceState i s) f v = cavity fs s f v i := total_slice i s v _
+    rw [hc]; exact hvalid
+
+/-- damped update, element by element -/
+theorem plate_damped_update_global {I : Type} (fs : List Nat) (valid : G → Bool)
+    (s : State (I → G)) (f v : Nat) (q : Field (I → G)) (δ : Delta) (qv m : I → G) (d : Rat) (i : I)
+    (hnd : fs.Nodup) (hf : f ∈ fs) (hheld : s.get f v = some m) (hq : lookup q v = some qv)
+    (hδ : δ.at v = some d)
+    (hvalid : valid ((d • qv i + (1 - d) • m i) - d • cavity fs s f v i) = true) :
+    global fs (projectArr valid s (approx fs s f) q δ) v i = d • qv i + (1 - d) • global fs s v i := by
+  rw [plate_global_is_elementwise, plate_update_is_elementwise, plate_global_is_elementwise]
+  apply damped_update_global fs valid (sliceState i s) f v (sliceField i q) δ (qv i) (m i) d hnd hf
+  · rw [get_sliceState, hheld]; rfl
+  · rw [lookup_sliceField, hq]; rfl
+  · exact hδ
+  · have hc : cavity fs (sliceState i s) f v = cavity fs s f v i := total_slice i s v _
+    rw [hc]; exact hvalid
+
+/-- an improper element keeps that element of the previous message -/
+theorem plate_improper_element_keeps_message {I : Type} (fs : List Nat) (valid : G → Bool)
+    (s : State (I → G)) (f v : Nat) (q : Field (I → G)) (δ : Delta) (qv m : I → G) (i : I)
+    (hheld : s.get f v = some m) (hq : lookup q v = some qv)
+    (hinvalid : valid (candidate (approx fs s f) (δ.at v) v qv i) = false) :
+    ((projectArr valid s (approx fs s f) q δ).get f v).map (fun x => x i) = some (m i) := by
+  rw [← get_sliceState, plate_update_is_elementwise]
+  apply improper_projection_keeps_message fs valid (sliceState i s) f v (sliceField i q) δ (qv i) (m i)
+  · rw [get_sliceState, hheld]; rfl
+  · rw [lookup_sliceField, hq]; rfl
+  · rw [← approx_slice, candidate_slice]; exact hinvalid
+
+/-! ## batches: `EPMeanFieldSubset` and plate indexing -/
+
+/-- **Batch approximation**: the share `message ** scale` the factor is fitted with times the cavity
+(the other factors' messages times the rest of the factor's own message) is the model distribution. -/
+theorem subset_model_eq_message_times_cavity (fs : List Nat) (s : State G) (scale : Nat → Rat)
+    (f v : Nat) (m c : G) (h : s.get f v = some m) (hc : cavityOpt fs s f v = some c) :
+    (subApprox fs s scale f).model v =
+      some (val ((subApprox fs s scale f).old v) + val ((subApprox fs s scale f).cavity v)) := by
+  have hm : modelOpt fs s f v = some (m + c) := by simp [modelOpt, h, hc, val]
+  simp only [subApprox, h, hc, hm]
+  by_cases hs : scale v < 1
+  · simp only [hs, if_true, Option.map_some, val_some]
+    rw [EtaSpace.add_comm c, ← EtaSpace.add_assoc, share_split]
+  · simp only [hs, if_false, Option.map_some, val_some]
+
+omit [EtaSpace G] in
+/-- merging an unchanged batch back changes nothing -/
+theorem merge_subset_self (axes : List Axis) (old : Nat → G) :
+    mergeArr (some axes) old (subArr (some axes) old) = old := by
+  funext i
+  simp only [mergeArr, subArr]
+  cases h : posOf axes i with
+  | none => rfl
+  | some k => simp [(posOf_some axes i k h).1]
+
+omit [EtaSpace G] in
+/-- **Merging a batch leaves every element outside the batch as it was.** -/
+theorem merge_untouched_elements (axes : List Axis) (old new : Nat → G) (i : Nat)
+    (h : ∀ k, k < subSize axes → flatIdx axes k ≠ i) : mergeArr (some axes) old new i = old i := by
+  simp only [mergeArr]
+  cases hp : posOf axes i with
+  | none => rfl
+  | some k => exact absurd (posOf_some axes i k hp).1 (h k (posOf_some axes i k hp).2)
+
+omit [EtaSpace G] in
+/-- **… and the batch's elements are the batch's messages** (positions selected once) -/
+theorem subset_of_merge (axes : List Axis) (old new : Nat → G) (k : Nat) (hk : k < subSize axes)
+    (hinj : ∀ k', k' < subSize axes → flatIdx axes k' = flatIdx axes k → k' = k) :
+    subArr (some axes) (mergeArr (some axes) old new) k = new k := by
+  simp only [mergeArr, subArr]
+  obtain ⟨k', hk'⟩ := posOf_isSome_of_hit axes k hk
+  rw [hk']
+  have h := posOf_some axes _ k' hk'
+  simp only [hinj k' h.2 h.1]
+
+omit [EtaSpace G] in
+/-- a variable none of whose plates is selected is exchanged as a whole -/
+theorem merge_whole_when_no_plate_selected (P : Plates) (ix : PIndex) (v : Nat) (old new : Nat → G)
+    (h : (P.dims v).any (fun p => (lookup ix p).isSome) = false) :
+    mergeArr (axesOf P ix v) old new = new ∧ subArr (axesOf P ix v) old = old := by
+  simp [axesOf, h, mergeArr, subArr]
+
+/-! ## `log_norm` -/
+
+/-- what the code does: the `log_norm` of a newly fitted distribution does not reach the factor's
+stored mean field -/
+theorem log_norm_dropped_by_projection (l : Rat) : projectedLogNorm l = 0 := rfl
+
+theorem log_norms_after_updates_zero (fs : List Nat) (ups : List (Nat × Rat)) :
+    ∀ p ∈ logNormsAfter fs ups, p.2 = 0 := by
+  intro p hp
+  simp only [logNormsAfter, List.mem_map] at hp
+  obtain ⟨f, _, rfl⟩ := hp
+  cases (ups.filter (fun u => u.1 == f)).getLast? <;> rfl
+
+/-- two variables over a plate of size 2 shared by two factors; element 1 of variable 0 of factor 0
+is fully updated to 5, element 0 (improper: `q` less precise than the cavity) keeps its message -/
+example :
+    let fs := [0, 1]
+    let s : State (Nat → Rat) := [(0, [(0, fun i => if i = 0 then -1 else -1)]), (1, [(0, fun _ => -2)])]
+    let q : Field (Nat → Rat) := [(0, fun i => if i = 0 then -1 else -5)]
+    let s' := projectArr (fun e => e < 0) s (approx fs s 0) q (.scalar 1)
+    global fs s' 0 1 = -5 ∧ (s'.get 0 0).map (fun x => x 0) = some (-1) := by
+  decide +kernel
+
+/-- a 2 x 3 array indexed at rows [1] (`np.ix_([1], [0, 1, 2])`): flat positions 3, 4, 5 -/
+example :
+    let axes : List Axis := [{ seq := [1], full := 2 }, { seq := [0, 1, 2], full := 3 }]
+    (List.range (subSize axes)).map (flatIdx axes) = [3, 4, 5] := by
   decide +kernel
 
 end AF.C18
